@@ -151,7 +151,8 @@ where
 {
     // Just decent size bounds checks to ensure we have a lot of space.
     assert!(M::FORMATTED_SIZE < BUFFER_SIZE - 2);
-    debug_assert!(bytes.len() >= BUFFER_SIZE);
+    // The caller has at least `BUFFER_SIZE` bytes, of which 1 may hold the sign.
+    debug_assert!(bytes.len() >= BUFFER_SIZE - 1);
 
     // Config options
     let format = NumberFormat::<{ FORMAT }> {};
